@@ -154,6 +154,8 @@ def ordered_valid(G, S, leafmap, leafsyn, m, lab, root_order=None):
                 if not is_subseq(tuple(lab[c]), tuple(lab[v])):
                     return f"child {c} not a subsequence of {v}"
     root = tuple(lab[G.root])
+    if root_order is not None:
+        universe |= set(root_order)  # a prescribed root order may hold families that every leaf has lost
     if set(root) != universe or len(root) != len(universe):
         return "root does not hold every family once"
     if root_order is not None and root != tuple(root_order):
